@@ -3,6 +3,8 @@ CONSTANTS
   MaxMods = 5
   MaxDecls = 3
   ImportPositions = FALSE
+  ImportTwice = FALSE
+  Restricted = FALSE
   Dirs <- TraceDirs
   Strict = TRUE
 POSTCONDITION Accepted
